@@ -3,7 +3,7 @@ import Copia.Lemmas.HubRefine2
 # C10 — hub paths only ever hold complete, hash-verified content
 
 Interleaved model `Copia.Model.HubConc`: N server processes, any interleaving of their file-system
-steps, any kills. `Inv` is inductive over `Step` (all eleven step kinds, `Copia.Lemmas.HubInv.step_inv`);
+steps, any kills. `Inv` is inductive over `Step` (all fifteen step kinds, Put and Delete, `Copia.Lemmas.HubInv.step_inv`);
 here it is lifted to every reachable state. The hypothesis `WF.tmp_inj` (per-process staging names) is
 what the pinned code violated (D6): with a shared staging name the invariant is false and the model
 exhibits the torn file as a run.
@@ -45,13 +45,24 @@ theorem init_ok {S : Sys} {init : List Chunk → Prop} (s0 : State)
     (hfresh : ∀ p n, s0.dir p = some n → n < s0.next)
     (hpub : ∀ p n, S.staging p = false → s0.dir p = some n → init (s0.ino n)) :
     Inv S init s0 ∧ LInv S s0 := by
-  refine ⟨⟨hinj, hfresh, ?_, ?_, ?_, ?_⟩, ⟨?_, ?_⟩⟩
+  refine ⟨⟨hinj, hfresh, ?_, ?_, ?_, ?_⟩, ⟨?_, ?_, ?_⟩⟩
   · intro i fd h; rw [hpc i] at h; cases h
   · intro i fd k h; rw [hpc i] at h; cases h
   · intro i fd h; rw [hpc i] at h; cases h
   · intro p n hp hd; exact Or.inl (hpub p n hp hd)
-  · intro i h
-    rcases h with ⟨fd, h⟩ | ⟨fd, c, h⟩ | h <;> (rw [hpc i] at h; cases h)
+  · intro i h; rw [hpc i] at h; cases h
   · intro i fd c h; rw [hpc i] at h; cases h
+  · intro i c h; rw [hpc i] at h; cases h
+
+/-- C10 (fetch): the inode behind a client-visible path is never written again — whatever the other
+processes do afterwards (writes, truncations of their staging files, commits over the path, deletes,
+kills), a reader that opened the path at state `s` reads exactly the complete verified content it
+held then. (`handle_get` reads size and bytes from ONE open handle after the D7 repair.) -/
+theorem fetch_reads_one_complete_version {S : Sys} {init : List Chunk → Prop} {s0 s t : State}
+    (wf : WF S) (h0 : Inv S init s0) (l0 : LInv S s0) (r0 : Reach S s0 s) (r : Reach S s t)
+    (p : Path) (n : Ino) (hp : S.staging p = false) (hd : s.dir p = some n) :
+    t.ino n = s.ino n ∧ Valid S init (s.ino n) :=
+  ⟨(sealed_reach wf h0 l0 r0 (published_sealed wf (reach_inv wf h0 l0 r0).1 p n hp hd) r).content,
+   (reach_inv wf h0 l0 r0).1.pub p n hp hd⟩
 
 end Copia.C10
